@@ -248,6 +248,7 @@ func TestC07Rounds(t *testing.T) {
 							q = cw.qrank(utils.QueryIDFromData(cur))
 						}
 					}
+					atExpiry := false
 					if r.Intn(3) == 0 {
 						// a bridge-deposit round whose window ends with this very block (expiration = this height), preferably a
 						// tipped one that already has reports: one more report at the boundary
@@ -256,7 +257,7 @@ func TestC07Rounds(t *testing.T) {
 							if m.Expiration == uint64(w.height) {
 								j := cw.qrank(k.K1())
 								if j >= 0 && j < len(cw.kinds) && cw.kinds[j] == "KDeposit" {
-									if best < 0 || (m.HasRevealedReports && m.Amount.IsPositive()) {
+									if best < 0 || m.HasRevealedReports {
 										best = j
 									}
 								}
@@ -265,6 +266,7 @@ func TestC07Rounds(t *testing.T) {
 						})
 						if best >= 0 {
 							q = best
+							atExpiry = true
 							stats["SubmitValue/deposit-at-expiration"]++
 						}
 					}
@@ -320,6 +322,30 @@ func TestC07Rounds(t *testing.T) {
 					}
 					emit(fmt.Sprintf("OSubmit %d %d %s %s %s", q, cw.rrank[w.accts[rep].String()], st, cz(minStake.BigInt()), cstr(val)), res.result == 0)
 					stats[fmt.Sprintf("SubmitValue/%d", res.result)]++
+					if atExpiry && rep < 2 {
+						// a second report on the same deposit in the same (last) block, by the other reporter: two rounds of one
+						// query id can coexist here (the expiring one and the one just opened)
+						rep2 := 1 - rep
+						val2 := randHex(r, 64)
+						var stake2 *big.Int
+						func() {
+							cctx, _ := w.ctx.CacheContext()
+							defer func() { _ = recover() }()
+							if st, err := w.s.Reporterkeeper.ReporterStake(cctx, w.accts[rep2], cw.qids[q]); err == nil {
+								stake2 = st.BigInt()
+							}
+						}()
+						res2 := w.deliver("SubmitValue", rep2, nil, func(ctx sdk.Context) error {
+							_, err := w.oracleMS.SubmitValue(ctx, &oracletypes.MsgSubmitValue{Creator: w.accts[rep2].String(), QueryData: cw.pool[q], Value: val2})
+							return err
+						})
+						st2 := "None"
+						if stake2 != nil {
+							st2 = "(Some " + cz(stake2) + ")"
+						}
+						emit(fmt.Sprintf("OSubmit %d %d %s %s %s", q, cw.rrank[w.accts[rep2].String()], st2, cz(minStake.BigInt()), cstr(val2)), res2.result == 0)
+						stats[fmt.Sprintf("SubmitValue/%d", res2.result)]++
+					}
 				}
 			}
 			before := 0
